@@ -10,7 +10,9 @@ PosDurs == {Dm(0, 0, 0, 0, 0, 0, 0, 0), Dm(0, 11, 0, 20, 0, 0, 0, 0), Dm(1, 0, 0
 TDurs == PosDurs \cup {NegDur(D) : D \in PosDurs}
 QPos == {Dm(0, 11, 0, 20, 0, 0, 0, 0), Dm(1, 0, 0, 0, 0, 0, 0, 0), Dm(0, 1, 0, 0, 0, 0, 0, 0), Dm(0, 0, 0, 45, 0, 0, 0, 0), Dm(1, 10, 0, 10, 0, 0, 0, 0), Dm(0, 0, 3, 4, 12, 0, 0, 0),
          Dm(0, 0, 0, 380, 0, 0, 0, 0), Dm(0, 1, 0, 15, 12, 0, 0, 0), Dm(0, 0, 0, 0, 36, 0, 0, 0), Dm(0, 0, 0, 30, 23, 59, 59, 999999999), Dm(0, 5, 5, 5, 0, 0, 0, 1),
-         Dm(0, 11, 4, 3, 0, 0, 0, 0), Dm(0, 0, 0, 29, 0, 0, 0, 0)}
+         Dm(0, 11, 4, 3, 0, 0, 0, 0), Dm(0, 0, 0, 29, 0, 0, 0, 0),
+         \* days and a time part that end PAST the clamped end of the window (Jan 31 + 1 month = Feb 29; Feb 29 + 1 year = Feb 28): more than a whole unit of progress
+         Dm(0, 0, 0, 29, 12, 0, 0, 0), Dm(0, 0, 0, 365, 12, 0, 0, 0)}
 QDurs == QPos \cup {NegDur(D) : D \in QPos} \cup {Dm(0, 0, 0, 0, 0, 0, 0, 0)}
 QOpts == {o \in [lg : {"year", "month", "week", "day", "hour"}, sm : {"year", "month", "week", "day", "hour", "nanosecond"}, inc : {1, 2, 5}, mode : {"ceil", "floor", "trunc", "halfExpand", "halfEven"}] :
             /\ UnitLe(o.sm, o.lg) /\ (o.sm = "hour" => o.inc \in {1, 2}) /\ (o.sm = "nanosecond" => o.inc \in {1, 5})}
@@ -52,7 +54,8 @@ Cls == CASE last.op = "round" -> "sm-" \o O.sm \o "/lg-" \o O.lg \o "/" \o Carri
 DTJ2(x, cal) == LET j == [y |-> x.date.y, m |-> x.date.m, d |-> x.date.d, h |-> x.time.h, mi |-> x.time.mi, s |-> x.time.s, ms |-> x.time.ms, us |-> x.time.us, ns |-> x.time.ns]
                 IN IF cal = "iso8601" THEN j ELSE j @@ [cal |-> cal]
 CaseOf ==
-  CASE last.op = "round" -> [op |-> "Duration.round", cls |-> Cls, args |-> [recv |-> last.dur, rel |-> last.rel, st |-> [largest |-> O.lg, smallest |-> O.sm, inc |-> O.inc, mode |-> O.mode]], out |-> last.out]
+  CASE last.op = "round" /\ "absent" \in DOMAIN last -> [op |-> "Duration.round", cls |-> Cls \o "/largest-left-out", args |-> [recv |-> last.dur, rel |-> last.rel, st |-> [smallest |-> O.sm, inc |-> O.inc, mode |-> O.mode]], out |-> last.out]
+    [] last.op = "round" -> [op |-> "Duration.round", cls |-> Cls, args |-> [recv |-> last.dur, rel |-> last.rel, st |-> [largest |-> O.lg, smallest |-> O.sm, inc |-> O.inc, mode |-> O.mode]], out |-> last.out]
     [] last.op = "total" -> [op |-> "Duration.total", cls |-> Cls, args |-> [recv |-> last.dur, rel |-> last.rel, unit |-> last.u],
                              out |-> IF last.out.kind = "ok" THEN [kind |-> "ratio", n |-> last.out.val.n, d |-> last.out.val.d] ELSE last.out]
     [] last.op = "datediff" -> [op |-> IF last.since THEN "PlainDate.since" ELSE "PlainDate.until", cls |-> Cls,
